@@ -30,8 +30,8 @@ ASSUMPTIONS = [
     "for projections with central longitude 0 the absolute oracle also fixes WHICH faces 'exclude' drops; for central longitudes 90 / 180 / -120 (Robinson, Mollweide) it judges only what the statement fixes there: every polygon is the projected image of one face, in ascending face order, 'ignore' shows all faces, and each carried value is the value of the face shown (which faces are dropped is left to the history search, where the reference is the fresh-grid result)",
     "split: total area of a face's pieces in the unwrapped lon/lat plane equals the face's planar area within 3% (the cut points lie on great-circle edges, not on straight lon/lat lines), no piece has an edge with |dlon| >= 180",
 ]
-BOUNDS = {"quick": "absolute on 5 grids (3 of them also with shifted central longitudes); history depth 2 over 49 events on 2 grids, depth 3 over the ~30 cache-relevant events on 1 grid", "thorough": "absolute on 8 grids; history depth 3 over 49 events on 2 grids, depth 2 on 2 more"}
-GRIDS_Q = ["mixedpatch", "amstrip", "am3", "sizes38", "eqring"]
+BOUNDS = {"quick": "absolute on 6 grids (incl. a kilometre-scale patch across the antimeridian) (3 of them also with shifted central longitudes); history depth 2 over 49 events on 2 grids, depth 3 over the ~30 cache-relevant events on 1 grid", "thorough": "absolute on 9 grids; history depth 3 over 49 events on 2 grids, depth 2 on 2 more"}
+GRIDS_Q = ["mixedpatch", "amstrip", "am3", "sizes38", "eqring", "finequads-am"]
 SHIFTED = ("robinson90", "robinson180", "mollweide-120")
 SHIFTED_GRIDS = ("eqring", "am3", "amstrip")
 GRIDS_T = GRIDS_Q + ["am3:rev", "isolated", "cornertouch"]
